@@ -122,6 +122,27 @@ def _f(_x):
     return _x + [t(915, 1)] + [t(916, 2)]
 trace("foldfail", _f(0))
 `},
+	{"operand-grouping", false, true, `
+def _f(_a, _b, _c):
+    return (_a + (_b + _c), (_a + _b) + _c, _a - (_b - _c), _a * (_b * _c), (_a * _b) * _c, _a / (_b / _c))
+def _g(_a, _b, _c):
+    return _a + (_b + _c)
+trace("group", _f(0.1, 0.2, 0.3), _f(1e16, 1.0, 1.0), _f(1e308, 1e308, -1e308))
+trace("group", 0.1 + (0.2 + 0.3), 1e16 + (1.0 + 1.0), "a" + ("b" + "c"), [1] + ([2] + [3]), 1e16 + (1.0 + (1.0 + (1.0 + 1.0))))
+trace("group", _g("a", "b", "c"), _g([t(920, 1)], [t(921, 2)], [t(922, 3)]), _g((1,), (2,), (3,)))
+trace("group", {"a": 1} | ({"b": 2} | {"a": 3}), ({"a": 1} | {"b": 2}) | {"a": 3}, 7 - (4 - 2), 64 // (8 // 2), 2 * (3 % 2))
+`},
+	{"operand-grouping-failing-left", false, true, `
+def _f():
+    return t(923, 1) + (t(924, "s") + t(925, "t"))
+trace("groupfail", _f())
+`},
+	{"operand-grouping-failing-literal", false, true, `
+def _f(_x):
+    return _x + ("a" + "b") + ("c" + str(t(926, 1)))
+trace("groupfail", _f("z"))
+trace("groupfail", _f(0))
+`},
 	{"nested-unpack-for", false, true, `
 def _f():
     _out = []
